@@ -169,6 +169,7 @@ def h_object(c):
       c.assume(e >= s)
       d['notes'].append((c.int('i%dn%d_v' % (i, j), 0, 127),
                          c.int('i%dn%d_p' % (i, j), 0, 127), s, e))
+    d['name'] = c.choice('i%d_name' % i, ['trk', '', 'Fl\xf6te', 'Fl\xc3\xb6te'])
     d['bend'] = (c.int('i%db' % i, -8192, 8191), c.real('i%db_t' % i, 0))
     d['cc'] = (c.int('i%dc_n' % i, 0, 127), c.int('i%dc_v' % i, 0, 127),
                c.real('i%dc_t' % i, 0))
@@ -183,7 +184,9 @@ def h_object(c):
                                                                vals['key_t'])]
     self.instruments = []
     for d in insts:
-      ins = pmod.Instrument(d['program'], d['drum'], 'trk')
+      # track names come out of the parser decoded as latin-1: ASCII, empty and
+      # a name that is not valid UTF-8 when re-encoded
+      ins = pmod.Instrument(d['program'], d['drum'], d.get('name', 'trk'))
       for (v, p, s, e) in d['notes']:
         ins.notes.append(pmod.Note(v, p, s, e))
       ins.pitch_bends.append(pmod.PitchBend(*d['bend']))
